@@ -126,7 +126,31 @@ fn raw_to_parse_error(map: &CodeMap, err: Error, unicode: bool) -> Box<Error> {
         Ok(raw) => raw,
         Err(err) => return Box::new(err),
     };
-    Box::new(Error::from_loc(message, map.look_up_span(span), unicode))
+    Box::new(Error::from_loc(
+        message,
+        map.look_up_span(snap_to_char_boundaries(map, span)),
+        unicode,
+    ))
+}
+
+/// Spans of re-lexed interpolated text are computed from offsets into the
+/// resolved text, so they can begin or end inside a multi-byte character of
+/// the source file. Resolving such a span to line and column would panic.
+fn snap_to_char_boundaries(map: &CodeMap, span: codemap::Span) -> codemap::Span {
+    let file = map.find_file(span.low());
+    let source = file.source();
+    let mut low = (span.low() - file.span.low()) as usize;
+    let mut high = (span.high() - file.span.low()) as usize;
+
+    while low > 0 && !source.is_char_boundary(low) {
+        low -= 1;
+    }
+
+    while high < source.len() && !source.is_char_boundary(high) {
+        high += 1;
+    }
+
+    file.span.subspan(low as u64, high as u64)
 }
 
 pub fn parse_stylesheet<P: AsRef<Path>>(
